@@ -745,6 +745,13 @@ class AEnv:
                 out_axes.append(Axis([Seg(s_, ONE, comp=tuple(names) if len(names) > 1 else None)]))
             if ok and i == t.rank:
                 return AT(out_axes, t.scalar, t.zero)
+            # The target does not group consecutive source axes.  If it has the SAME factors in another order, the reshape re-reads the row-major buffer
+            # under permuted axis names: the shape is the one of a transpose, the entries are scrambled.
+            src = [nf.show(ax.size) for ax in t.axes if not is_one(ax.size)]
+            dst = [nf.show(s_) for s_ in sizes if not is_one(s_)]
+            if len(src) > 1 and sorted(src) == sorted(dst) and src != dst:
+                self.err("reshape permutes axes", v, f"an array with axes ({', '.join(src)}) is reshaped to ({', '.join(dst)}): same factors in another order -- reshape re-reads the "
+                         "row-major buffer and scrambles the entries; a transpose moves axes")
             return AT([axis(s) for s in sizes], t.scalar, t.zero)
         # reshape that only inserts / removes size-1 axes keeps labels
         big_old = [ax for ax in t.axes if not is_one(ax.size)]
